@@ -1,5 +1,5 @@
 import Flowjaxv.Proofs.AdTheory
-import Flowjaxv.Proofs.Leaves
+import Mathlib.Analysis.SpecialFunctions.Trigonometric.DerivHyp
 import Flowjaxv.Gen.LeavesAst
 /-!
 # The generated kernels' ASTs are `Safe` (finite value, finite adjoints) at every finite input
